@@ -245,14 +245,11 @@ Definition x_construct (add : bool) (bulk : nat) (sch : schedule) (d : dst) (tmp
   if negb (q_ok q) then (RErr EQuery, d2) else
   let '(sent, okp) := produce (output_bindings tmpl) tmpl (q_rows q) draw 0 in
   let '(pending, okw, d3) := writer add bulk sch d2 outs sent [] true in
-  if okp then
-    (* close(tripChan): the writer flushes what is pending *)
-    let '(okf, d4) := if is_empty pending then (true, d3) else x_update add sch d3 pending outs in
-    (* the results of update() (okw, okf) are not looked at: the statement reports success *)
-    (ROk, d4)
-  else
-    (* early return: tripChan is never closed, the pending triples are never written (and the writer never ends) *)
-    (RErr ETemplate, d3).
+  (* close(tripChan) -- at the end, or by abort() on a template error: the writer flushes what is pending and
+     reports the joined errors of its update() calls *)
+  let '(okf, d4) := if is_empty pending then (true, d3) else x_update add sch d3 pending outs in
+  if okp then (if okw && okf then ROk else RErr EUpdate, d4)
+  else (RErr ETemplate, d4).
 
 Definition x_select (sch : schedule) (d : dst) (ins : list str) (q : qinput) : result * dst :=
   let '(ok, d1) := x_init sch d ins in
@@ -263,8 +260,7 @@ Definition x_select (sch : schedule) (d : dst) (ins : list str) (q : qinput) : r
 
 Definition x_show (sch : schedule) (d : dst) : result * dst :=
   let '(ns, ok, d1) := d_graph_names sch d in
-  (* showPlan.Execute: `if <-errs != nil { return nil, err }` returns the nil error of table.New *)
-  if ok then (RShow ns, d1) else (RNilNil, d1).
+  if ok then (RShow ns, d1) else (RErr EDriver, d1).
 
 Definition xexec (bulk : nat) (sch : schedule) (d : dst) (s : stmt) : result * dst :=
   if negb (static_ok s) then (RErr EStatic, d) else
